@@ -287,6 +287,15 @@ func Analyze(fn *Func, c Config) (*Result, error) {
 	e.res = &Result{Fn: fn, At: map[ast.Node][]*State{}}
 	e.indexConds(fn.Body)
 	init := &State{facts: map[string]Val{}}
+	if fn.Type != nil && fn.Type.Results != nil {
+		for _, fld := range fn.Type.Results.List {
+			for _, name := range fld.Names {
+				if name.Name != "_" {
+					e.learnZero(init, name) // named results start at their zero value
+				}
+			}
+		}
+	}
 	e.run(fn.Body, []*State{init}, func(st *State, kind ExitKind, ret *ast.ReturnStmt, at ast.Node) {
 		e.res.Exits = append(e.res.Exits, &Exit{Kind: kind, Return: ret, At: at, State: st, Inner: st.inner})
 	})
@@ -682,6 +691,13 @@ func (e *Engine) assign(st *State, lhs, rhs []ast.Expr, tok token.Token, exit ex
 							next = append(next, e.assignOne(s, lhs[i], ast.Unparen(o.results[i]), exit)...)
 						}
 						states = next
+						// the callee returned a variable / path: what is known about its fields and about calls on
+						// it is known about the variable it is assigned to
+						if id, ok := lhs[i].(*ast.Ident); ok && id.Name != "_" && stablePath(o.results[i]) {
+							for _, s := range states {
+								e.transfer(s, e.Fn.Render(ast.Unparen(o.results[i])), e.Fn.Render(id), nil, id)
+							}
+						}
 					}
 				} else {
 					for _, l := range lhs {
